@@ -285,6 +285,11 @@ static size_t run_line(size_t pc, int in_child, int *stop) {
     } else if (!strcmp(c, "envnull")) { environ = NULL;
     } else if (!strcmp(c, "envempty")) { static char *none[1] = { NULL }; environ = none;
     } else if (!strcmp(c, "envset")) { unsigned char *a = unhex(tok[1], &n), *b = unhex(tok[2], &n); setenv((char *) a, (char *) b, 1); free(a); free(b);
+    } else if (!strcmp(c, "envpat")) {                               /* envpat HEXNAME LEN SEED: value = pattern known to the concretiser */
+        static const char A[] = "abcdefghijklmnopqrstuvwxyz0123456789 _-+=/.,:;";
+        unsigned char *a = unhex(tok[1], &n); size_t len = strtoul(tok[2], 0, 10), seed = strtoul(tok[3], 0, 10);
+        char *v = malloc(len + 1); for (size_t j = 0; j < len; j++) v[j] = A[(seed * 7 + j) % (sizeof A - 1)]; v[len] = 0;
+        setenv((char *) a, v, 1); free(v); free(a);
     } else if (!strcmp(c, "envunset")) { unsigned char *a = unhex(tok[1], &n); unsetenv((char *) a); free(a);
     } else if (!strcmp(c, "envraw")) {                               /* install a private environ made of raw entries */
         private_env = calloc((size_t) ntok, sizeof *private_env); private_envn = 0;
